@@ -31,7 +31,8 @@ import xml.etree.ElementTree as ET
 from bounded import corpus
 from bounded.corpus import WB, XF, XH, Case
 
-USES_DEFAULT_CORPUS = True
+USES_DEFAULT_CORPUS = False  # the default corpus is appended at the END of cases(): the families that hit the known
+#                              defects of the unchanged tree run first, so that any other key is printed last
 N_GENERATED = {"quick": 150, "thorough": 1500}
 TIME_BUDGET_S = {"quick": 120, "thorough": 1500}
 
@@ -428,7 +429,7 @@ def _recover(case, ctx):
     if not _lookup_cache:
         seed = ctx.get("seed", 0)
         for tier in ("quick", "thorough"):
-            for c in [*cases(tier, seed), *corpus.corpus(tier, seed, N_GENERATED[tier])]:
+            for c in cases(tier, seed):
                 _lookup_cache.setdefault(c.name, c)
     return _lookup_cache.get(case.name)
 
@@ -896,7 +897,8 @@ def cases(tier, seed):
     out = []
     out += fam_names(tier)
     out += fam_namespaces(tier, rnd)
+    out += fam_text(tier, seed)
     out += fam_settings(tier, rnd)
     out += fam_languages_nesting(tier, rnd)
-    out += fam_text(tier, seed)
+    out += corpus.corpus(tier, seed, N_GENERATED[tier])   # harvested test forms + generic generator
     return out
